@@ -14,11 +14,11 @@ type Job struct {
 }
 
 type Res struct {
-	Trace   []Decision
-	V       []rt.Violation
-	Obs     string // canonical observation log of this execution (results of every call + final state)
-	Outcome string // coarse outcome class (for the distinct-outcome counter)
-	Err     string
+	Trace    []Decision
+	V        []rt.Violation
+	Obs      string // canonical observation log of this execution (results of every call + final state)
+	Outcome  string // coarse outcome class (for the distinct-outcome counter)
+	Err      string
 	Collided bool // the scenario's collision predicate held (e.g. both threads passed verification before either wrote)
 }
 
@@ -55,8 +55,8 @@ func Explore(c *rt.Ctx, prop, scn string, bound int) Stats {
 	}
 	seenPrefix := map[string]bool{}
 	for b := 0; b <= bound; b++ {
-		// wave-based DFS restricted to executions with exactly <= b preemptions; executions with fewer preemptions than b
-		// were produced in earlier iterations and are skipped through seenPrefix
+		// wave-based exploration of all executions with <= b preemptions; executions already produced by an earlier
+		// iteration are re-run (their subtrees are needed) but counted and reported once (seenPrefix holds full schedules)
 		frontier := []item{{nil, 0}}
 		for len(frontier) > 0 {
 			if c.Expired() {
@@ -66,10 +66,6 @@ func Explore(c *rt.Ctx, prop, scn string, bound int) Stats {
 			jobs := make([]any, 0, len(frontier))
 			var todo []item
 			for _, it := range frontier {
-				k := fmt.Sprint(it.prefix)
-				if seenPrefix[k] && len(it.prefix) > 0 {
-					continue
-				}
 				todo = append(todo, it)
 				jobs = append(jobs, Job{Scn: scn, Prefix: it.prefix})
 			}
@@ -87,9 +83,10 @@ func Explore(c *rt.Ctx, prop, scn string, bound int) Stats {
 				if res.Err != "" {
 					rt.HarnessError("scenario %s schedule %v: %s", scn, it.prefix, res.Err)
 				}
-				first := !seenPrefix[fmt.Sprint(it.prefix)]
-				seenPrefix[fmt.Sprint(it.prefix)] = true
-				if first || len(it.prefix) == 0 && b == 0 {
+				full := fmt.Sprint(choices(res.Trace))
+				first := !seenPrefix[full]
+				seenPrefix[full] = true
+				if first {
 					st.Executions++
 					st.Outcomes[res.Outcome]++
 					if res.Collided {
@@ -131,9 +128,7 @@ func Explore(c *rt.Ctx, prop, scn string, bound int) Stats {
 							continue
 						}
 						np := append(append([]int{}, choices(res.Trace[:j])...), alt)
-						if !seenPrefix[fmt.Sprint(np)] {
-							next = append(next, item{np, cost})
-						}
+						next = append(next, item{np, cost})
 					}
 					if d.RunningEnabled && d.Chosen != 0 {
 						pre++
